@@ -58,7 +58,9 @@ def handle (line : String) : String :=
       | [x, y, z] =>
         match parseDir x y z with
         | some post =>
-          match checkP pre asg now post with
+          -- the narrowed failure keys must never fire on the model's own result (they are not covered by a theorem)
+          if checkPM pre asg now m (cleanup pre asg now m) == some "assigned-lost" then badCase "the model itself loses an assigned repository outside the known classes" else
+          match checkPM pre asg now m post with
           | some k => specFail model k
           | none => answer model
         | none => badCase "impl dir"
